@@ -63,7 +63,7 @@ def ackData : Ack → Option Json.Bytes
   | .error => none
 
 /-- `{"error":"`: every error acknowledgement starts with these bytes -/
-def errorAckPrefix : Json.Bytes := Json.kError ++ [0x22]
+def errorAckPrefix : Json.Bytes := 0x7b :: 0x22 :: (Json.keyError ++ [0x22, 0x3a, 0x22])
 
 /-- The model's class of acknowledgement bytes produced by the contract: well-formed `{"error":"…"}` bytes are an
 error acknowledgement whatever the text, `ack_success()` is the success acknowledgement, anything else is neither. -/
